@@ -512,6 +512,7 @@ p_uthread_local_free (PUThreadKey *key)
 	if (P_UNLIKELY (key == NULL))
 		return;
 
+	p_free (key->key);
 	p_free (key);
 }
 
